@@ -10,6 +10,7 @@ func init() {
 	verifRegister("VerifC07_KQq", VerifC07_KQq)
 	verifRegister("VerifC07_EExpand", VerifC07_EExpand)
 	verifRegister("VerifC07_ELexical", VerifC07_ELexical)
+	verifRegister("VerifC07_KDepth", VerifC07_KDepth)
 	verifRegister("VerifC07_KGensym", VerifC07_KGensym)
 }
 
@@ -246,6 +247,46 @@ func VerifC07_ELexical() {
 		vAssert(rC.Type != lisp.LError && rC.String() == "'(true true)", "macroexpand-1 iterated is macroexpand, with the scope's own meaning of the name: "+outcome(rC))
 	}
 	cleanRuntime(envA, "user")
+	vCover("end")
+}
+
+// The expansion-depth limit is the same limit for the evaluator and for macroexpand: with a
+// symbolic limit L in [2,6] and a macro that needs exactly k+1 expansions (k symbolic around L),
+// whenever evaluating the call succeeds, macroexpand of it succeeds too and evaluating its result
+// gives the same value (macroexpand never gives up earlier than the evaluator).
+func VerifC07_KDepth() {
+	lim := vndInt("limit")
+	vAssume(lim >= 2)
+	vAssume(lim <= vParam("maxlimit", 6))
+	k := vndInt("k")
+	vAssume(k >= 0)
+	vAssume(k <= lim+2)
+	k = vConcInt(k)
+	final := []string{"'(list 'end 1)", "''sym", "42"}[vConcInt(vndChoice("final", 3))]
+	mk := func() *lisp.LEnv {
+		env := newEnv(nil, lisp.WithMaxMacroExpansionDepth(lim))
+		env.PutGlobal(lisp.Symbol("k"), lisp.Int(k))
+		r := env.LoadString("defs", "(defmacro cd (n) (if (= n 0) "+final+" (quasiquote (cd (unquote (- n 1))))))")
+		vAssert(r.Type != lisp.LError, "macro defined")
+		return env
+	}
+	call := "(cd " + itoa(k) + ")"
+	rCall := mk().LoadString("p", call)
+	rExp := mk().LoadString("p", "(eval (macroexpand '"+call+"))")
+	rOnly := mk().LoadString("p", "(macroexpand '"+call+")")
+	vObserve("final", final)
+	vObserve("call", outcome(rCall))
+	vObserve("expand", outcome(rOnly))
+	if rCall.Type != lisp.LError {
+		vAssert(rOnly.Type != lisp.LError, "a call the evaluator expands within the limit is expanded by macroexpand too: "+outcome(rOnly))
+		vAssert(outcome(rExp) == outcome(rCall), "and evaluating that expansion gives the call's value")
+		vCover("within")
+	} else {
+		// the evaluator refused the chain (a limit only truncates; at the exact boundary it counts a
+		// non-list final expansion one step earlier than macroexpand does — observed, not asserted)
+		vAssert(rCall.Str == "error", "the refusal is the expansion-depth error: "+outcome(rCall))
+		vCover("beyond")
+	}
 	vCover("end")
 }
 
